@@ -54,8 +54,13 @@ NoPad == [kind |-> "exact", l |-> 0, t |-> 0, r |-> 0, b |-> 0]
 MaxI(a, b) == IF a > b THEN a ELSE b
 Resolve(d, term) == IF d > 0 THEN d ELSE MaxI(term + d, 1)
 Lead(total, a) == CASE a = 0 -> 0 [] a = 1 -> total \div 2 [] OTHER -> total
+\* kind "sub": an instance of a USER SUBCLASS of AlignedPadding whose _get_exact_dimensions_
+\* puts all of the horizontal padding on the left and all of the vertical padding at the top
+\* (whatever the alignment); resolving a relative one must keep the class (and so the rule)
 PadDims(p, size) ==
   IF p.kind = "exact" THEN <<p.l, p.t, p.r, p.b>>
+  ELSE IF p.kind = "sub"
+    THEN <<MaxI(Resolve(p.w, TW) - size[1], 0), MaxI(Resolve(p.h, TH) - size[2], 0), 0, 0>>
   ELSE LET pw == MaxI(Resolve(p.w, TW) - size[1], 0)
            ph == MaxI(Resolve(p.h, TH) - size[2], 0)
            l == Lead(pw, p.ha)
@@ -65,7 +70,7 @@ PadDims(p, size) ==
 \* THE CALL; the iterator keeps the resolved padding (a later resize alone changes nothing, a
 \* set_padding() after a resize sees the new size)
 ResolvePad(p, term) ==
-  IF p.kind = "aligned" THEN [p EXCEPT !.w = Resolve(p.w, term[1]), !.h = Resolve(p.h, term[2])] ELSE p
+  IF p.kind \in {"aligned", "sub"} THEN [p EXCEPT !.w = Resolve(p.w, term[1]), !.h = Resolve(p.h, term[2])] ELSE p
 PaddedSize(p, size) == LET d == PadDims(p, size) IN <<d[1] + size[1] + d[3], d[2] + size[2] + d[4]>>
 
 Frames == 0..(N - 1)
@@ -192,9 +197,12 @@ SetDuration == \E d \in Durs \cup {0} :
                  Do([name |-> "set_frame_duration", v |-> d], DoSet(s, "dur", d, d # 0, "ValueError"))
 SetPadding == \E p \in Pads : Do([name |-> "set_padding", v |-> p], DoSetPad(s, p))
 Resize == \E z \in Terms \ {s.term} : Do([name |-> "resize", v |-> z], DoResize(s, z))
-SetArgs == \E a \in ArgsSet \cup {"incompatible"} :
+\* render arguments of an unrelated render class ("incompatible") and of a CHILD class of the
+\* renderable's class ("child") are both incompatible: only the class itself and its ancestors
+Incompat == {"incompatible", "child"}
+SetArgs == \E a \in ArgsSet \cup Incompat :
              Do([name |-> "set_render_args", v |-> a],
-                DoSet(s, "args", a, a # "incompatible", "IncompatibleRenderArgsError"))
+                DoSet(s, "args", a, a \notin Incompat, "IncompatibleRenderArgsError"))
 SetSize == \E z \in Sizes : Do([name |-> "set_render_size", v |-> z], DoSet(s, "size", z, TRUE, ""))
 Close == Do([name |-> "close"], DoClose(s))
 Drop == /\ ~s.closed
